@@ -537,4 +537,37 @@ example :
        .allocate { id := "b", size := 60, aff := 1, types := 0, strict := false, prio := 1024, created := 2 }]).reqs.map
         (fun q => (q.id, q.zone, q.strict)) = [("s", 1, true), ("b", 3, false)] := by rfl
 
+/-! ### committing a fresh offer keeps the placement rules -/
+
+theorem commitStep_nodes (req : Req) (s : St) (p : String × Mask) : (commitStep req s p).nodes = s.nodes := by
+  unfold commitStep
+  split
+  · simp only []
+    split
+    · exact zoneAssign_nodes _ _ _
+    · rw [zoneAssign_nodes]
+  · split
+    · exact zoneMove_nodes _ _ _
+    · rfl
+
+theorem Commit_nodes (s : St) (o : Offer) : (s.Commit o).1.nodes = s.nodes := by
+  rw [commit_eq]
+  split
+  · rfl
+  · show (o.updates.foldl (commitStep o.req) s).nodes = s.nodes
+    exact foldl_inv (fun t => t.nodes = s.nodes) (commitStep o.req) (fun a x h => by rw [commitStep_nodes]; exact h) _ _ rfl
+
+/-- **a committed fresh offer obeys the placement rules**: since it leaves exactly the assignments
+of a direct `Allocate`, every assigned zone afterwards contains normal memory and holds no more
+than its capacity, exactly as after `Allocate`. -/
+theorem commit_fresh_keeps_placement (s : St) (h : HFit s) (r : Req) (hr : 0 ≤ r.size) (o : Offer)
+    (hoff : (s.GetOffer r).2 = .ok o) :
+    Placed ((s.GetOffer r).1.Commit o).1 ∧ FitInv ((s.GetOffer r).1.Commit o).1 := by
+  have hreqs := (commit_fresh_eq_allocate s h.inv.wf h.inv.placed r o hoff).2
+  have hn : ((s.GetOffer r).1.Commit o).1.nodes = (s.Allocate r).1.nodes := by
+    rw [Commit_nodes, GetOffer_nodes s h.inv.wf r, Allocate_nodes s h.inv.wf r]
+  have hA := step_fits s h (.allocate r) hr
+  have hA' : HFit (s.Allocate r).1 := hA
+  refine ⟨placed_of_reqs_eq (s.Allocate r).1 _ hA'.inv.placed hreqs hn, fit_of_reqs_eq (s.Allocate r).1 _ hA'.fit hreqs hn⟩
+
 end Nri.LibMem
